@@ -381,7 +381,7 @@ fn evidence(prop: &str) -> Evidence {
 pub fn run_c12_c14(ctx: &Ctx, prop: &'static str) -> i32 {
     let mut rng = Rng::from_parts(&[ctx.seed, 0xC12]);
     let mut cfgs = card_cfgs(&mut rng, !ctx.quick());
-    let reps = ctx.pick(6usize, 40usize);
+    let reps = ctx.pick(40usize, 400usize);
     let base = cfgs.clone();
     for r in 1..reps {
         for c in &base {
@@ -394,7 +394,7 @@ pub fn run_c12_c14(ctx: &Ctx, prop: &'static str) -> i32 {
             cfgs.push(c2);
         }
     }
-    let nops = ctx.pick(40usize, 120usize);
+    let nops = ctx.pick(60usize, 200usize);
     let seed = ctx.seed;
     let mut total = report::parallel(ctx.threads, cfgs.len(), |i, rep| {
         c12_history(&cfgs[i], nops, seed.wrapping_add(i as u64), prop, rep);
